@@ -6613,9 +6613,9 @@ BD_Shape<T>::expand_space_dimension(Variable var, dimension_type m) {
   // The space dimension of the resulting BDS should not
   // overflow the maximum allowed space dimension.
   if (m > max_space_dimension() - space_dimension()) {
-    throw_invalid_argument("expand_dimension(v, m)",
-                           "adding m new space dimensions exceeds "
-                           "the maximum allowed space dimension");
+    throw std::length_error("PPL::BD_Shape::expand_space_dimension(v, m):\n"
+                            "adding m new space dimensions exceeds "
+                            "the maximum allowed space dimension");
   }
   // Nothing to do, if no dimensions must be added.
   if (m == 0) {
